@@ -1,5 +1,5 @@
 """Per-property check definitions.  See DESIGN.md section 6."""
-import json, os, re, subprocess, time
+import json, os, re, shutil, subprocess, time
 from vlib import *  # noqa
 
 REGISTRY = {}
@@ -241,6 +241,27 @@ class Ctx:
             raise NoVerdict("driver %s replayed nothing" % name)
         return self.validate(name, module, trace, beh, cmd, racy=racy)
 
+    def repo_test_traces(self, name, pkgs, timeout=1500):
+        """run packages of the REPOSITORY'S OWN test suite with the hooks on and the state-machine trace enabled
+        (VERIF_FSM_TRACE), decode the trace (vdrive fsmtrace) and validate it with Trace_Table. Whether the tests
+        themselves pass is not looked at: only what their state machines did."""
+        raw = os.path.join(self.sc, name + ".raw.ndjson")
+        # go must not rewrite /repo's go.mod: work on copies
+        shutil.copy(os.path.join(REPO, "go.mod"), os.path.join(self.sc, "repo.go.mod"))
+        shutil.copy(os.path.join(REPO, "go.sum"), os.path.join(self.sc, "repo.go.sum"))
+        t0 = time.time()
+        env = dict(GOENV, VERIF_FSM_TRACE=raw)
+        try:
+            p = subprocess.run(["go", "test", "-tags", "verif", "-vet=off", "-count=1", "-modfile=" + os.path.join(self.sc, "repo.go.mod")] + pkgs,
+                               cwd=REPO, env=env, stdout=subprocess.PIPE, stderr=subprocess.STDOUT, text=True, timeout=timeout)
+        except subprocess.TimeoutExpired:
+            raise NoVerdict("the repository's tests did not finish in %d s" % timeout)
+        if not os.path.exists(raw) or os.path.getsize(raw) == 0:
+            raise NoVerdict("the repository's tests produced no state-machine trace:\n" + p.stdout[-3000:])
+        log("(G) repository tests %s: %d raw events in %.1fs" % (" ".join(pkgs), sum(1 for _ in open(raw)), time.time() - t0))
+        self.notes.setdefault("repository_test_packages_traced", []).extend(pkgs)
+        return self.gv(name, "Trace_Table", ["fsmtrace", "--in", raw])
+
     # ------------------------------------------------------------ evidence
     def finish(self):
         cov = dict(states=self.states, transitions=self.transitions, traces_validated_against_impl=self.traces,
@@ -303,12 +324,24 @@ def c02(ctx):
 def c03(ctx):
     ctx.assumptions += TABLE_ASSUME
     ctx.assumptions.append("replicas are real fsm.FSM instances on separate in-memory file systems; snapshot transfer = PrepareSnapshot/SaveSnapshot/RecoverFromSnapshot between instances with independently chosen recovery types")
+    ctx.assumptions.append("repository-test traces: packages of the existing suite run with the build tag verif and VERIF_FSM_TRACE set; each state machine instance is followed from the state it shows after Open / RecoverFromSnapshot; an instance is followed until 400 elementary operations (tests that load thousands of pairs are cut there); whether the tests pass is not looked at")
     q = ctx.quick
+    if os.environ.get("VERIF_ONLY_REPO_TRACES"):
+        # measurement aid (seeded/REPO_TRACES.md): only the traces of the repository's own tests, all traced packages
+        ctx.repo_test_traces("repository-test-traces", ["./storage/table/", "./storage/", "./regattaserver/", "./replication/", "./storage/table/fsm/", "./replication/backup/"])
+        return
     logs = ctx.design("MC_Converge", "MC_Converge_quick.cfg" if q else "MC_Converge_thorough.cfg", sample=60 if q else 1500)
     if not ctx.gv("tlc-logs", "Trace_Table", ["table", "--mode", "convlog", "--seed", str(seed())], inputs=logs):
         return
     n, ops = (120, 12) if q else (1500, 16)
-    ctx.gv("random-logs", "Trace_Table", ["table", "--mode", "converge", "--seed", str(seed()), "--n", str(n), "--ops", str(ops)])
+    if not ctx.gv("random-logs", "Trace_Table", ["table", "--mode", "converge", "--seed", str(seed()), "--n", str(n), "--ops", str(ops)]):
+        return
+    # what the state machines of the REPOSITORY'S OWN TESTS did (engines, servers, replication workers, restores of the
+    # existing suite): every Update call, with per-entry results and both indices, replayed in the specification
+    pkgs = ["./storage/table/", "./storage/", "./regattaserver/", "./replication/"]
+    if not q:
+        pkgs += ["./storage/table/fsm/", "./replication/backup/"]
+    ctx.repo_test_traces("repository-test-traces", pkgs)
 
 
 @check("C09")
@@ -430,7 +463,11 @@ def c11(ctx):
     if not ctx.gv("tlc-schedules", "Trace_NotifQueue", ["queue"], inputs=beh):
         return
     # long random schedules (20 waiters, revisions 0..11, 60 steps) and the real ForwardingKVServer over the real queue
-    ctx.gv("random-schedules", "Trace_NotifQueue", ["queue", "--seed", str(seed()), "--n", str(300 if q else 5000)])
+    if not ctx.gv("random-schedules", "Trace_NotifQueue", ["queue", "--seed", str(seed()), "--n", str(300 if q else 5000)], racy=True):
+        return
+    # the apply side: the table state machine tells the applied-index listener (which feeds the queue), once per Update,
+    # the leader index the batch recorded - random logs with leader indices, reopen and snapshot transfers on real FSMs
+    ctx.gv("apply-notifications", "Trace_Table", ["table", "--mode", "converge", "--seed", str(seed() + 3), "--n", str(150 if q else 2000), "--ops", "14"])
 
 
 @check("C06")
